@@ -571,8 +571,10 @@ def _formula_to_format(
         chg = _get_charge(parts[1])
         if chg < 0:
             token = "-" if chg == -1 else "%d-" % -chg
-        if chg > 0:
+        elif chg > 0:
             token = "+" if chg == 1 else "%d+" % chg
+        else:
+            token = "0"
         string += sup(token)
     if len(parts) > 4:
         raise ValueError("Incorrect formula")
